@@ -9,10 +9,12 @@ class C05(LBCheck):
           'GetServers() may take virtual time / fail once, notifications (joins, duplicate joins, leaves, '
           'leaves of unknown members, re-joins) delivered serially before, during and after loading, '
           'interleaved with traffic and failing channels. At every quiescent point with no notification '
-          'pending: heap endpoints U aperture idle endpoints == truth set, disjoint, no duplicates. '
+          'pending: heap endpoints U aperture idle endpoints == truth set, disjoint, no duplicates; at the end (heap '
+          'balancer, all members healthy) |members| requests are left outstanding and exactly the current members '
+          'must have received one each. '
           'non-trivial = a join or leave was delivered; distinct as C03')
   REQUIRED_CLASSES = ('heap', 'aperture', 'join-duplicate', 'leave-unknown', 'rejoin', 'notify-during-loading',
-                      'rejoin-while-draining', 'removal', 'init-retry')
+                      'rejoin-while-draining', 'removal', 'init-retry', 'saturation-probe')
   ASSUMPTIONS = ('eligible endpoints are read from the balancer\'s heap and idle set (observe_at: internal)',)
 
   def profile(self, rng, tier):
